@@ -760,7 +760,7 @@ def oracle_written(fc, rep, extend, a, first_line):
         want = expected_layout(fc, extend)
         got = a["payload"]
         if len(want) != len(got) or not all(value_ok(rep, x, y) for x, y in zip(want, got)):
-            bad.append("file-data-order")
+            bad.append("file-data")
     if a["rep"] != rep:
         bad.append("file-representation")
     if rep != "txt" and a["check"] != CHECK[4 if rep == "bin4" else 8]:
